@@ -302,6 +302,17 @@ def listedCoords (m : MachineState) : List (Nat × Nat) :=
   (List.range m.dimW).flatMap fun x => (List.range m.dimH).filterMap fun y =>
     if m.listed (x, y) then some (x, y) else none
 
+/-- machine specification: the P2P table of the machine state - the entry of every coordinate inside the
+dimensions, column by column -/
+def MachineState.specTable (m : MachineState) : List ((Nat × Nat) × Nat) :=
+  (List.range m.dimW).flatMap fun x => (List.range m.dimH).map fun y => ((x, y), m.entry x y)
+
+/-- the property for `get_p2p_routing_table`, decided on a returned table (any order): its keys are
+distinct and it holds exactly the entries of the machine state inside the dimensions -/
+def p2pOk (m : MachineState) (t : List ((Nat × Nat) × Nat)) : Bool :=
+  t.length == m.specTable.length && m.specTable.all (fun e => t.lookup e.1 == some e.2) &&
+  t.all (fun e => e.1.1 < m.dimW && e.1.2 < m.dimH)
+
 /-- the property for discovery, decided on a returned description: width/height are the extent
 of the listed chips; the description's keys are distinct and are exactly the listed chips that
 answer; every record is the chip's state -/
@@ -489,6 +500,33 @@ def words (n : Nat) (d : List Nat) : Except String (List Nat) :=
 
 def routerDiagnostics (rd : Rd) : Except String (List Nat) :=
   words 16 (rd ROUTER_DIAG_ADDR ROUTER_DIAG_LEN)
+
+/-! ## struct fields (`read_struct_field`, `read_vcpu_struct_field`) -/
+
+/-- little-endian bytes of a value in a field of `size` bytes -/
+def leN (size v : Nat) : List Nat := (List.range size).map fun i => v / 256 ^ i % 256
+
+/-- `read_struct_field` / `read_vcpu_struct_field` for a scalar integer field of a struct at `base`;
+arrays and strings are outside this model -/
+def structField (rd : Rd) (fields : List (String × Nat × Nat × Bool × Nat)) (base : Nat) (name : String) :
+    Except String Nat :=
+  match fields.find? (·.1 == name) with
+  | none => .error "KeyError"
+  | some (_, off, size, isStr, count) =>
+    if isStr || count != 1 then .error "NotScalar" else readInt rd (base + off) size
+
+/-- `read_struct_field("sv", name, x, y)` -/
+def svField (rd : Rd) (name : String) : Except String Nat := structField rd SV_FIELDS SV_BASE name
+
+/-- `read_vcpu_struct_field(name, x, y, p)` -/
+def vcpuField (rd : Rd) (p : Nat) (name : String) : Except String Nat := do
+  let va ← vcpuAddr rd p
+  structField rd VCPU_FIELDS va name
+
+/-- machine specification: the bytes of scalar `sv` fields holding the given values -/
+def svSegs (vals : List (String × Nat)) : List (Nat × List Nat) :=
+  vals.filterMap fun (name, v) =>
+    (SV_FIELDS.find? (·.1 == name)).map fun (_, off, size, _, _) => (SV_BASE + off, leN size v)
 
 /-! ## software version -/
 
@@ -875,6 +913,14 @@ def handle (op : String) (j : Json) : R Json := do
         | .ok b => Json.bool b
         | .error e => Json.str e
       | _ => Json.null))
+  | "spec_sv" =>
+    let vals ← (← arr j "fields").mapM fun e => asPair e asStr asNat
+    pure (Json.mkObj [("mem", segsToJson (svSegs vals))])
+  | "sv_field" => pure (res jNat (svField (rdSegs (← segsOfJson j)) (← str j "name")))
+  | "vcpu_field" => pure (res jNat (vcpuField (rdSegs (← segsOfJson j)) (← nat j "p") (← str j "name")))
+  | "p2p_ok" =>
+    pure (Json.bool (p2pOk (← machineStateOfJson (← field j "state")) (← tableOfJson j "got")))
+  | "val_ok" => pure (Json.bool ((← nat j "want") == (← nat j "got")))
   | "iobuf" => pure (res jNats (iobufBytes (rdSegs (← segsOfJson j)) (← nat j "p") (← nat j "fuel")))
   | "status" => pure (res statusToJson (processorStatus (rdSegs (← segsOfJson j)) (← nat j "p")))
   | "diag" => pure (res jNats (routerDiagnostics (rdSegs (← segsOfJson j))))
